@@ -35,28 +35,84 @@ fn cat(parts: &[Vec<u8>]) -> Vec<u8> {
 pub struct Probe {
     pub name: &'static str,
     pub frames: Vec<u8>,
-    /// allowed terminating error kinds at the victim (Debug names of ErrorKind)
+    /// allowed terminating error kinds at the victim (Debug names of ErrorKind); the pseudo kind
+    /// "accepted" means the frame is legal and only its cost is judged
     pub expect: &'static [&'static str],
+    /// property whose clause prescribes the reaction ("C04" for every probe; C11 / C12 / C19 legs run their subset)
+    pub prop: &'static str,
+    /// endpoint whose packets carry the frames (the victim is the other one)
+    pub from: Role,
+    /// per-stream receive limit 300 000 instead of 65 536 (the connection limit stays 200 000)
+    pub big_stream: bool,
+}
+
+impl Probe {
+    fn big_stream(mut self) -> Self {
+        self.big_stream = true;
+        self
+    }
+}
+
+fn pr(prop: &'static str, name: &'static str, frames: Vec<u8>, expect: &'static [&'static str]) -> Probe {
+    Probe { name, frames, expect, prop, from: Role::Server, big_stream: false }
+}
+
+fn pr_c(prop: &'static str, name: &'static str, frames: Vec<u8>, expect: &'static [&'static str]) -> Probe {
+    Probe { name, frames, expect, prop, from: Role::Client, big_stream: false }
+}
+
+/// STREAM frame with OFF and LEN bits (+FIN)
+fn stream(id: u64, off: u64, data: &[u8], fin: bool) -> Vec<u8> {
+    cat(&[vec![0x0e | fin as u8], vi(id), vi(off), vi(data.len() as u64), data.to_vec()])
 }
 
 /// the victim is the CLIENT; the server's packets carry the hostile frames.
 /// client-initiated bidi stream ids are 0,4,8..; client uni 2,6,..; server bidi 1,5,..; server uni 3,7,..
 pub fn probes() -> Vec<Probe> {
     vec![
-        Probe { name: "ack.unsent.wide-range", frames: cat(&[vec![0x02], vi(1 << 22), vi(0), vi(0), vi(1 << 22)]), expect: &["ProtocolViolation"] },
-        Probe { name: "ack.unsent.huge-range", frames: cat(&[vec![0x02], vi(1 << 40), vi(0), vi(0), vi(1 << 40)]), expect: &["ProtocolViolation"] },
-        Probe { name: "ack.first-range-gt-largest", frames: cat(&[vec![0x02], vi(5), vi(0), vi(0), vi(10)]), expect: &["FrameEncoding"] },
-        Probe { name: "max_streams.gt-2^60", frames: cat(&[vec![0x12], vi(1 << 61)]), expect: &["FrameEncoding", "StreamLimit"] },
-        Probe { name: "streams_blocked.gt-2^60", frames: cat(&[vec![0x16], vi(1 << 61)]), expect: &["FrameEncoding", "StreamLimit"] },
-        Probe { name: "stream.on-victims-uni-stream", frames: cat(&[vec![0x0a], vi(2), vi(1), vec![0x41]]), expect: &["StreamState"] },
-        Probe { name: "stream.index-far-beyond-limit", frames: cat(&[vec![0x0a], vi(1 + 4 * 5000), vi(1), vec![0x41]]), expect: &["StreamLimit"] },
-        Probe { name: "stream.offset-beyond-stream-limit", frames: cat(&[vec![0x0e], vi(1), vi(1 << 30), vi(1), vec![0x41]]), expect: &["FlowControl"] },
-        Probe { name: "max_stream_data.on-receive-only-stream", frames: cat(&[vec![0x11], vi(3), vi(1000)]), expect: &["StreamState"] },
-        Probe { name: "stop_sending.local-unopened", frames: cat(&[vec![0x05], vi(4 * 40), vi(0)]), expect: &["StreamState"] },
-        Probe { name: "retire_connection_id.unissued-seq", frames: cat(&[vec![0x19], vi(1000)]), expect: &["ProtocolViolation"] },
-        Probe { name: "new_connection_id.retire-prior-to-gt-seq", frames: cat(&[vec![0x18], vi(3), vi(5), vec![8], vec![7; 8], vec![9; 16]]), expect: &["FrameEncoding", "ProtocolViolation"] },
-        Probe { name: "new_connection_id.far-beyond-limit", frames: cat(&[vec![0x18], vi(100_000), vi(0), vec![8], vec![7; 8], vec![9; 16]]), expect: &["ConnectionIdLimit"] },
-        Probe { name: "handshake_done.from-client-role", frames: vec![], expect: &[] }, // placeholder, skipped
+        pr("C04", "ack.unsent.wide-range", cat(&[vec![0x02], vi(1 << 22), vi(0), vi(0), vi(1 << 22)]), &["ProtocolViolation"]),
+        pr("C04", "ack.unsent.huge-range", cat(&[vec![0x02], vi(1 << 40), vi(0), vi(0), vi(1 << 40)]), &["ProtocolViolation"]),
+        pr("C04", "ack.first-range-gt-largest", cat(&[vec![0x02], vi(5), vi(0), vi(0), vi(10)]), &["FrameEncoding"]),
+        pr("C12", "max_streams.gt-2^60", cat(&[vec![0x12], vi(1 << 61)]), &["FrameEncoding", "StreamLimit"]),
+        pr("C12", "streams_blocked.gt-2^60", cat(&[vec![0x16], vi(1 << 61)]), &["FrameEncoding", "StreamLimit"]),
+        pr("C12", "stream.on-victims-uni-stream", cat(&[vec![0x0a], vi(2), vi(1), vec![0x41]]), &["StreamState"]),
+        pr("C12", "stream.index-far-beyond-limit", cat(&[vec![0x0a], vi(1 + 4 * 5000), vi(1), vec![0x41]]), &["StreamLimit"]),
+        pr("C11", "stream.offset-beyond-stream-limit", cat(&[vec![0x0e], vi(1), vi(1 << 30), vi(1), vec![0x41]]), &["FlowControl"]),
+        pr("C12", "max_stream_data.on-receive-only-stream", cat(&[vec![0x11], vi(3), vi(1000)]), &["StreamState"]),
+        pr("C12", "stop_sending.local-unopened", cat(&[vec![0x05], vi(4 * 40), vi(0)]), &["StreamState"]),
+        pr("C04", "retire_connection_id.unissued-seq", cat(&[vec![0x19], vi(1000)]), &["ProtocolViolation"]),
+        pr("C04", "new_connection_id.retire-prior-to-gt-seq", cat(&[vec![0x18], vi(3), vi(5), vec![8], vec![7; 8], vec![9; 16]]), &["FrameEncoding", "ProtocolViolation"]),
+        pr("C04", "new_connection_id.far-beyond-limit", cat(&[vec![0x18], vi(100_000), vi(0), vec![8], vec![7; 8], vec![9; 16]]), &["ConnectionIdLimit"]),
+        // ---- second table (round 2): limits of C11 / C12 / C19 on the real receive path ------------------
+        // connection limit 200 000 but stream limit 300 000: one frame within its stream's limit exceeds the connection's
+        // (the receiver raises its connection limit by a step whenever a frame comes close to it, so only a single
+        // frame that jumps over the limit is certain to be beyond what was advertised)
+        pr("C11", "stream.connection-limit-exceeded-within-stream-limit", stream(1, 299_999, b"A", false), &["FlowControl"]).big_stream(),
+        pr("C11", "stream.exactly-at-stream-limit", stream(0, 65535, b"A", false), &["accepted"]),
+        pr("C11", "stream.one-beyond-stream-limit", stream(1, 65535, b"AB", false), &["FlowControl"]),
+        pr("C11", "reset.final-size-beyond-stream-limit", cat(&[vec![0x04], vi(1), vi(0), vi(1 << 30)]), &["FlowControl"]),
+        pr("C11", "max_data.maximal-value", cat(&[vec![0x10], vi((1 << 62) - 1)]), &["accepted"]),
+        pr("C11", "max_stream_data.maximal-value", cat(&[vec![0x11], vi(0), vi((1 << 62) - 1)]), &["accepted"]),
+        pr("C12", "stream.data-beyond-final-size", cat(&[stream(1, 2, b"A", true), stream(1, 5, b"B", false)]), &["FinalSize"]),
+        pr("C12", "stream.second-fin-at-other-offset", cat(&[stream(1, 2, b"AA", true), stream(1, 1, b"A", true)]), &["FinalSize"]),
+        pr("C12", "reset.final-size-below-received", cat(&[stream(1, 0, b"AAAA", false), cat(&[vec![0x04], vi(1), vi(0), vi(2)])]), &["FinalSize"]),
+        pr("C12", "reset.on-victims-uni-stream", cat(&[vec![0x04], vi(2), vi(0), vi(0)]), &["StreamState"]),
+        pr("C12", "stop_sending.on-receive-only-stream", cat(&[vec![0x05], vi(3), vi(0)]), &["StreamState"]),
+        pr("C12", "max_stream_data.local-unopened", cat(&[vec![0x11], vi(4 * 40), vi(1000)]), &["StreamState"]),
+        pr("C12", "stream.local-unopened", stream(4 * 40, 0, b"A", false), &["StreamState"]),
+        pr("C12", "stream.index-exactly-last-allowed", stream(1 + 4 * 9, 0, b"A", false), &["accepted"]),
+        pr("C12", "stream.uni-index-first-beyond-limit-plus-one", stream(3 + 4 * 11, 0, b"A", false), &["StreamLimit"]),
+        pr("C19", "datagram.received-when-disabled", cat(&[vec![0x31], vi(1), vec![0x41]]), &["ProtocolViolation"]),
+        pr("C04", "new_connection_id.cid-length-zero", cat(&[vec![0x18], vi(1), vi(0), vec![0], vec![9; 16]]), &["FrameEncoding"]),
+        pr("C04", "new_connection_id.cid-length-21", cat(&[vec![0x18], vi(1), vi(0), vec![21], vec![7; 21], vec![9; 16]]), &["FrameEncoding"]),
+        pr("C04", "crypto.far-offset", cat(&[vec![0x06], vi(1 << 40), vi(1), vec![0x41]]), &["accepted", "CryptoBufferExceeded"]),
+        pr("C04", "padding-and-pings", cat(&[vec![0x00; 500], vec![0x01; 500]]), &["accepted"]),
+        // ---- frames a client must never send (victim = server; the client sees the server's CONNECTION_CLOSE) ---
+        pr_c("C04", "handshake_done.sent-by-client", vec![0x1e], &["ProtocolViolation"]),
+        pr_c("C04", "new_token.sent-by-client", cat(&[vec![0x07], vi(4), vec![1, 2, 3, 4]]), &["ProtocolViolation"]),
+        pr_c("C12", "stream.on-servers-uni-stream", stream(3, 0, b"A", false), &["StreamState"]),
+        pr_c("C12", "stream.client-bidi-index-far-beyond-limit", stream(4 * 5000, 0, b"A", false), &["StreamLimit"]),
+        pr_c("C11", "stream.offset-beyond-stream-limit.at-server", stream(0, 1 << 30, b"A", false), &["FlowControl"]),
     ]
 }
 
@@ -70,7 +126,7 @@ pub struct Obs {
     pub completed: bool,
 }
 
-fn run_probe(seed: u64, frames: Vec<u8>) -> Obs {
+fn run_probe(seed: u64, from: Role, big_stream: bool, frames: Vec<u8>) -> Obs {
     let out: Arc<std::sync::Mutex<Obs>> = Arc::new(std::sync::Mutex::new(Obs { client_term: None, client_term_text: String::new(), alloc_bytes: 0, peak_live_delta: 0, cpu_us: 0, injected_consumed: false, completed: false }));
     let o2 = out.clone();
     qconnection::verif::clear_injections();
@@ -78,7 +134,8 @@ fn run_probe(seed: u64, frames: Vec<u8>) -> Obs {
         let mut p = ParamCfg::default();
         p.streams_bidi = 10;
         p.streams_uni = 10;
-        p.stream_data = 65536;
+        p.stream_data = if big_stream { 300_000 } else { 65536 };
+        p.max_data = 200_000;
         let cfg = WorldCfg { client_params: p.client(), server_params: p.server(), log: LogMode::Noop, with_qlog: true, mtu: 1500 , ..Default::default() };
         let w = World::new(seed, cfg).await;
         let lat = Duration::from_millis(5);
@@ -118,8 +175,12 @@ fn run_probe(seed: u64, frames: Vec<u8>) -> Obs {
         let a0 = vcore::alloc::snapshot();
         vcore::alloc::reset_peak();
         let c0 = vcore::alloc::cpu_time_us();
-        qconnection::verif::inject_raw_frames(Role::Server, frames);
-        let _ = swriter.write_all(b"wake").await;
+        qconnection::verif::inject_raw_frames(from, frames);
+        if from == Role::Server {
+            let _ = swriter.write_all(b"wake").await;
+        } else {
+            let _ = wtr.write_all(b"wake").await;
+        }
         let c = conn.clone();
         let term = tokio::time::timeout(Duration::from_secs(3), async move { c.terminated().await }).await;
         let a1 = vcore::alloc::snapshot();
@@ -132,7 +193,7 @@ fn run_probe(seed: u64, frames: Vec<u8>) -> Obs {
         g.alloc_bytes = a1.total - a0.total;
         g.peak_live_delta = a1.peak.saturating_sub(a0.live);
         g.cpu_us = c1 - c0;
-        g.injected_consumed = qconnection::verif::pending_injections(Role::Server) == 0;
+        g.injected_consumed = qconnection::verif::pending_injections(from) == 0;
         g.completed = true;
         drop(g);
         w.listeners.shutdown();
@@ -150,7 +211,7 @@ fn run_probe(seed: u64, frames: Vec<u8>) -> Obs {
 const ALLOC_BUDGET: u64 = 8 << 20;
 const CPU_BUDGET_US: u64 = 1_500_000;
 
-fn judge(rep: &mut Report, name: &str, expect: &[&str], o: &Obs, replay: Value) {
+fn judge(rep: &mut Report, pfx: &str, name: &str, expect: &[&str], o: &Obs, replay: Value) {
     if !o.completed {
         rep.inconclusive(format!("probe {name}: scenario did not reach the measurement point"));
         return;
@@ -163,16 +224,17 @@ fn judge(rep: &mut Report, name: &str, expect: &[&str], o: &Obs, replay: Value) 
     rep.max("max_alloc_bytes_per_probe", o.alloc_bytes);
     rep.max("max_cpu_us_per_probe", o.cpu_us);
     match &o.client_term {
-        None => rep.violation(format!("C04.l2.error:{name}:accepted"), format!("hostile frame {name} was not answered with a connection error within 3 virtual s (prescribed: {expect:?})"), replay.clone()),
-        Some(k) if !expect.contains(&k.as_str()) => rep.violation(format!("C04.l2.error:{name}:{k}"), format!("hostile frame {name} closed the connection with {k} ({}), prescribed: {expect:?}", o.client_term_text), replay.clone()),
+        None if expect.contains(&"accepted") => rep.count("legal_probes_accepted"),
+        None => rep.violation(format!("{pfx}.l2.error:{name}:accepted"), format!("hostile frame {name} was not answered with a connection error within 3 virtual s (prescribed: {expect:?})"), replay.clone()),
+        Some(k) if !expect.contains(&k.as_str()) => rep.violation(format!("{pfx}.l2.error:{name}:{k}"), format!("hostile frame {name} closed the connection with {k} ({}), prescribed: {expect:?}", o.client_term_text), replay.clone()),
         Some(_) => rep.count("probes_with_prescribed_error"),
     }
     if o.alloc_bytes > ALLOC_BUDGET {
-        rep.violation(format!("C04.l2.mem:{name}"), format!("handling {name} made the process allocate {} bytes (budget {ALLOC_BUDGET}); peak live growth {} bytes", o.alloc_bytes, o.peak_live_delta), replay.clone());
+        rep.violation(format!("{pfx}.l2.mem:{name}"), format!("handling {name} made the process allocate {} bytes (budget {ALLOC_BUDGET}); peak live growth {} bytes", o.alloc_bytes, o.peak_live_delta), replay.clone());
     }
     if o.cpu_us > CPU_BUDGET_US {
         // CPU time is noisy on a loaded machine: confirmed by the caller with re-runs
-        rep.violation(format!("C04.l2.cpu:{name}"), format!("handling {name} cost {} us of CPU (budget {CPU_BUDGET_US})", o.cpu_us), replay);
+        rep.violation(format!("{pfx}.l2.cpu:{name}"), format!("handling {name} cost {} us of CPU (budget {CPU_BUDGET_US})", o.cpu_us), replay);
     }
 }
 
@@ -180,15 +242,23 @@ pub fn run(args: &Args, rep: &mut Report) {
     rep.rule = "probe = one hostile frame injected into an honest server's 1-RTT packet after a short legitimate history; distinct = probe names delivered; \
                 non-trivial = the victim processed the frame (connection error or acceptance observed)"
         .into();
-    let table = probes();
+    // `--prop C11` (C12, C19): only the probes whose prescribed reaction is a clause of that property,
+    // reported under that property's name; without it (C04) the whole table
+    let only = args.get("prop").map(|s| s.to_string());
+    let mut pfx = only.clone().unwrap_or_else(|| "C04".to_string());
+    let table: Vec<Probe> = probes().into_iter().filter(|p| only.as_deref().is_none_or(|o| o == p.prop)).collect();
     if let Some(path) = args.get("replay") {
         let v: Value = serde_json::from_str(&std::fs::read_to_string(path).unwrap()).unwrap();
         let v = if v.get("replay").is_some() { v["replay"].clone() } else { v };
+        if let Some(p) = v.get("prop").and_then(|p| p.as_str()) {
+            pfx = p.to_string();
+        }
+        let table = probes();
         let name = v["probe"].as_str().unwrap_or("");
         if let Some(p) = table.iter().find(|p| p.name == name) {
-            let o = run_probe(v["seed"].as_u64().unwrap_or(1), p.frames.clone());
+            let o = run_probe(v["seed"].as_u64().unwrap_or(1), p.from, p.big_stream, p.frames.clone());
             rep.evaluations += 1;
-            judge(rep, p.name, p.expect, &o, v.clone());
+            judge(rep, &pfx, p.name, p.expect, &o, v.clone());
         }
         return;
     }
@@ -198,12 +268,12 @@ pub fn run(args: &Args, rep: &mut Report) {
         if p.frames.is_empty() || i as u64 % shards != shard {
             continue;
         }
-        let replay = json!({"kind": "c04-l2", "probe": p.name, "seed": args.seed(), "frames": vcore::hex(&p.frames)});
-        let mut o = run_probe(args.seed(), p.frames.clone());
+        let replay = json!({"kind": "c04-l2", "prop": pfx, "probe": p.name, "seed": args.seed(), "frames": vcore::hex(&p.frames)});
+        let mut o = run_probe(args.seed(), p.from, p.big_stream, p.frames.clone());
         // a CPU overrun only counts if it repeats (process CPU time is noisy under load)
         if o.completed && o.cpu_us > CPU_BUDGET_US && o.alloc_bytes <= ALLOC_BUDGET {
-            let o2 = run_probe(args.seed() + 1, p.frames.clone());
-            let o3 = run_probe(args.seed() + 2, p.frames.clone());
+            let o2 = run_probe(args.seed() + 1, p.from, p.big_stream, p.frames.clone());
+            let o3 = run_probe(args.seed() + 2, p.from, p.big_stream, p.frames.clone());
             if o2.cpu_us <= CPU_BUDGET_US || o3.cpu_us <= CPU_BUDGET_US {
                 rep.count("cpu_overruns_not_confirmed");
                 o.cpu_us = o2.cpu_us.min(o3.cpu_us);
@@ -212,6 +282,6 @@ pub fn run(args: &Args, rep: &mut Report) {
         rep.evaluations += 1;
         rep.distinct(vcore::fnv_str(p.name));
         rep.sample(json!({"leg": "l2", "probe": p.name, "frames": vcore::hex(&p.frames), "victim_error": o.client_term, "alloc_bytes": o.alloc_bytes, "cpu_us": o.cpu_us}));
-        judge(rep, p.name, p.expect, &o, replay);
+        judge(rep, &pfx, p.name, p.expect, &o, replay);
     }
 }
